@@ -4,8 +4,8 @@ import Driver.Proto
 namespace Driver
 open CbModel.Heap CbModel
 
-partial def sexpToVal : Sexp → Option Val
-  | .atom a => a.toInt?.map Val.int
+partial def sexpToVal : Sexp → Option (Val Int)
+  | .atom a => a.toInt?.map Val.leaf
   | .str _ => none
   | .list l => (l.mapM sexpToVal).map Val.node
 
@@ -30,7 +30,7 @@ def c07Line (fs : List (List Char)) : String :=
     let ps : Option (List Path) := ((ptrs.splitOn ";").filter (· ≠ "")).mapM parsePath
     match r0, ps with
     | some r0, some ps =>
-      let rec go (os : List String) (s : St) (acc : List String) : List String :=
+      let rec go (os : List String) (s : St Int) (acc : List String) : List String :=
         match os with
         | [] => acc.reverse
         | o :: rest =>
@@ -41,7 +41,7 @@ def c07Line (fs : List (List Char)) : String :=
             | _, _ => ("bad-op" :: acc).reverse
           | ["a", a, n] =>
             match parseAcc a, n.toInt? with
-            | some a, some n => let s' := step s (.add a n); go rest s' (showInts (flatten s'.root) :: acc)
+            | some a, some n => let s' := step s (.upd a (· + n)); go rest s' (showInts (flatten s'.root) :: acc)
             | _, _ => ("bad-op" :: acc).reverse
           | ["c", d, c] =>
             match parseAcc d, parseAcc c with
